@@ -198,6 +198,72 @@ def inject(W, unit, rows, const, delta):
   return W
 
 
+def single_violation(ineqs, qi, w0, delta):
+  """A kernel column that violates inequality qi by exactly delta while EVERY other covered inequality of the unit
+  holds, with the largest common margin (capped at 1) - found by a small LP around w0. None when no such column
+  exists (qi is implied by the other inequalities)."""
+  from scipy.optimize import linprog  # pylint: disable=g-import-not-at-top
+  n = len(w0)
+  cost = np.zeros(n + 1)
+  cost[-1] = -1.0
+  a_ub, b_ub = [], []
+  for r, (_, _, rows, const) in enumerate(ineqs):
+    if r == qi:
+      continue
+    row = np.zeros(n + 1)
+    for i, cf in rows:
+      row[i] = -cf
+    row[-1] = 1.0
+    a_ub.append(row)
+    b_ub.append(const)
+  a_eq = np.zeros((1, n + 1))
+  for i, cf in ineqs[qi][2]:
+    a_eq[0, i] = cf
+  radius = 8.0 + 4.0 * delta
+  bounds = [(float(x) - radius, float(x) + radius) for x in w0] + [(None, 1.0)]
+  res = linprog(cost, A_ub=np.array(a_ub) if a_ub else None, b_ub=np.array(b_ub) if a_ub else None, A_eq=a_eq,
+                b_eq=[-delta - ineqs[qi][3]], bounds=bounds, method="highs")
+  if res.status != 0 or res.x[-1] < -1e-9:
+    return None
+  return res.x[:n]
+
+
+def margin_kernel(cfg, W):
+  """Feasible kernel near W in which every covered inequality holds with the largest common margin (<= 1) the
+  configuration allows (0 when the constraints force equalities), one LP per unit."""
+  from scipy.optimize import linprog  # pylint: disable=g-import-not-at-top
+  ineqs = lat_ineqs(cfg)
+  W = np.array(W, dtype=np.float64)
+  if not ineqs:
+    return W
+  n = W.shape[0]
+  a_ub = np.zeros((len(ineqs), n + 1))
+  b_ub = np.zeros(len(ineqs))
+  for r, (_, _, rows, const) in enumerate(ineqs):
+    for i, cf in rows:
+      a_ub[r, i] = -cf
+    a_ub[r, -1] = 1.0
+    b_ub[r] = const
+  cost = np.zeros(n + 1)
+  cost[-1] = -1.0
+  for u in range(W.shape[1]):
+    bounds = [(float(x) - 8.0, float(x) + 8.0) for x in W[:, u]] + [(None, 1.0)]
+    res = linprog(cost, A_ub=a_ub, b_ub=b_ub, bounds=bounds, method="highs")
+    if res.status == 0 and res.x[-1] >= -1e-9:
+      W[:, u] = res.x[:n]
+  return W
+
+
+def inject_single(W, unit, ineqs, qi, delta):
+  """(kernel, True) with exactly one violated inequality when possible, else the plain move (kernel, False)."""
+  col = single_violation(ineqs, qi, np.asarray(W, dtype=np.float64)[:, unit], delta)
+  if col is None:
+    return inject(W, unit, ineqs[qi][2], ineqs[qi][3], delta), False
+  W = np.array(W, dtype=np.float64)
+  W[:, unit] = col
+  return W, True
+
+
 def lat_struct(rng, small=False):
   """Valid Lattice structure with the dominance / joint families drawn often."""
   while True:
@@ -272,16 +338,28 @@ def gen_lattice(ctx, rng, out):
         eps = EPS[k % 4]
         mult = [10.0, 30.0, 100.0][(k // 4) % 3]
         k += 1
-        enum.append((ci, cfg, W, kind, loc, rows, const, u, eps, mult))
-  ctx.c12_enum_total = len(enum)
-  chosen = enum if ctx.tier == "thorough" else rng.sample(enum, min(len(enum), 110))
-  ctx.c12_enum_done = len(chosen)
-  for ci, cfg, W, kind, loc, rows, const, u, eps, mult in chosen:
-    W2 = inject(W, u, rows, const, mult * eps)
-    out.append(lat_desc(cfg, W2, eps, "enum", dict(kind=kind, loc=loc, unit=u, delta=mult * eps, family=ci)))
+        enum.append((ci, cfg, W, ineqs, qi, u, eps, mult))
+  ctx.c12_enum["lattice"] = len(enum)
+  if ctx.tier == "thorough":
+    chosen = enum
+  else:
+    # quick tier: at least one placement of every (configuration, kind), the rest at random
+    strata = {}
+    for e in enum:
+      strata.setdefault((e[0], e[3][e[4]][0]), []).append(e)
+    chosen = [rng.choice(v) for _, v in sorted(strata.items())]
+    ids = set(id(e) for e in chosen)
+    rest = [e for e in enum if id(e) not in ids]
+    chosen += rng.sample(rest, min(len(rest), max(0, 120 - len(chosen))))
+  ctx.c12_done["lattice"] = len(chosen)
+  for ci, cfg, W, ineqs, qi, u, eps, mult in chosen:
+    W2, single = inject_single(W, u, ineqs, qi, mult * eps)
+    out.append(lat_desc(cfg, W2, eps, "enum", dict(kind=ineqs[qi][0], loc=ineqs[qi][1], unit=u, delta=mult * eps,
+                                                   family=ci, single=single)))
   for ci, (cfg, W) in enumerate(bases):   # the family's feasible base kernels themselves (must pass)
     for eps in (EPS if ctx.tier == "thorough" else [EPS[(ci + ctx.seed) % 4]]):
       out.append(lat_desc(cfg, W, eps, "enumbase", None, ci % 4))
+      out.append(lat_desc(cfg, margin_kernel(cfg, W), eps, "enumbase-margin", None, (ci + 1) % 4))
   # (2) random structures: feasible / inject / below / random kernels
   for _ in range(ctx.n(110, 2500)):
     cfg = lat_struct(rng)
@@ -289,21 +367,27 @@ def gen_lattice(ctx, rng, out):
     set_lat_bounds(rng, cfg, W, rng.choice(["none", "min", "max", "both", "both"]))
     eps = rng.choice(EPS)
     forms = rng.randrange(4)
-    g = rng.choice(["feasible", "inject", "inject", "inject", "below", "random"])
+    g = rng.choice(["feasible", "feasible", "inject", "inject", "inject", "below", "random"])
     ineqs = lat_ineqs(cfg)
     if g in ("inject", "below") and not ineqs:
       g = "feasible"
     if g == "feasible":
-      out.append(lat_desc(cfg, W, eps, g, None, forms))
+      if rng.random() < 0.6:
+        out.append(lat_desc(cfg, margin_kernel(cfg, W), eps, "feasible-margin", None, forms))
+      else:
+        out.append(lat_desc(cfg, W, eps, g, None, forms))
     elif g == "random":
       out.append(lat_desc(cfg, latgen.gen_kernel(rng, cfg, rng.choice(["random", "ties", "sorted", "noise", "constant"])),
                           eps, g, None, forms))
     else:
-      kind, loc, rows, const = rng.choice(ineqs)
+      kinds = sorted(set(q[0] for q in ineqs))
+      kind = rng.choice(kinds)
+      qi = rng.choice([i for i, q in enumerate(ineqs) if q[0] == kind])
       u = rng.randrange(cfg["units"])
       delta = (rng.choice([10.0, 25.0, 100.0]) if g == "inject" else rng.choice([0.05, 0.3])) * eps
-      out.append(lat_desc(cfg, inject(W, u, rows, const, delta), eps, g,
-                          dict(kind=kind, loc=loc, unit=u, delta=delta), forms))
+      W2, single = inject_single(W, u, ineqs, qi, delta)
+      out.append(lat_desc(cfg, W2, eps, g, dict(kind=ineqs[qi][0], loc=ineqs[qi][1], unit=u, delta=delta,
+                                                single=single), forms))
 
 
 def coq_lat_cfg(cfg):
@@ -390,7 +474,9 @@ def eval_lattice(tf, tfl, d):
   fams = "".join(s for s, k in (("M", any(cfg["monos"])), ("E", cfg["edge"]), ("T", cfg["trap"]), ("D", cfg["mdom"]),
                                 ("R", cfg["rdom"]), ("J", cfg["jmono"]),
                                 ("B", cfg["omin"] is not None or cfg["omax"] is not None)) if k)
-  klass = "lattice_%s_%s_u%d_%s" % (d["gclass"], (d["inj"] or {}).get("kind", "-"), min(cfg["units"], 2), out[:8])
+  inj = d["inj"] or {}
+  klass = "lattice_%s_%s%s_u%d_%s" % (d["gclass"], inj.get("kind", "-"), "" if inj.get("single", True) else "+others",
+                                      min(cfg["units"], 2), out[:8])
   return Case(d, coq=coq, pred_fail=fail, nontrivial=bool(v > 0), klass=klass,
               info={"outcome": out, "largest_violation": v, "families": fams})
 
@@ -446,7 +532,84 @@ def pwl_feasible_outputs(rng, n, units, mono, omin, omax, cmin, cmax):
   return np.array(cols, dtype=np.float64).T
 
 
+def pwl_instances(b):
+  """Covered inequality instances (kind, keypoint, unit) of a PWL base description."""
+  nk, units = len(b["o"]), b["units"]
+  insts = []
+  for u in range(units):
+    if b["mono"] != 0:
+      insts += [("mono", k, u) for k in range(nk - 1)]
+    if b["omin"] is not None:
+      insts += [("clamp_min+", 0, u), ("clamp_min-", 0, u)] if b["cmin"] else [("lower", k, u) for k in range(nk)]
+    if b["omax"] is not None:
+      insts += [("clamp_max+", 0, u), ("clamp_max-", 0, u)] if b["cmax"] else [("upper", k, u) for k in range(nk)]
+    if b["impute"] and b["mov"] is None and b["omin"] is not None:
+      insts.append(("missing_lower", 0, u))
+    if b["impute"] and b["mov"] is None and b["omax"] is not None:
+      insts.append(("missing_upper", 0, u))
+  return insts
+
+
+def pwl_desc(b, eps, g, inst=None, delta=0.0, forms=0):
+  """PWL case from a base description (outputs b['o'] at the keypoints, missing output b['mo']) with the
+  instance `inst` pushed to a violation of `delta`."""
+  o = np.array(b["o"], dtype=np.float64)
+  mo = list(b["mo"])
+  inj = None
+  if inst is not None:
+    kind, k, u = inst
+    inj = dict(kind=kind, loc=[k], unit=u, delta=delta)
+    mono, omin, omax = b["mono"], b["omin"], b["omax"]
+    if kind == "mono":
+      t = ((o[k + 1, u] - o[k, u]) * mono + delta) / 2.0
+      o[k + 1, u] -= t * mono
+      o[k, u] += t * mono
+    elif kind == "lower":
+      o[k, u] = omin - delta
+    elif kind == "upper":
+      o[k, u] = omax + delta
+    elif kind in ("clamp_min+", "clamp_max+"):
+      o[:, u] += delta
+    elif kind in ("clamp_min-", "clamp_max-"):
+      o[:, u] -= delta
+    elif kind == "missing_lower":
+      mo[u] = omin - delta
+    elif kind == "missing_upper":
+      mo[u] = omax + delta
+  kernel = np.concatenate([o[0:1], np.diff(o, axis=0)], axis=0)
+  d = {k: v for k, v in b.items() if k not in ("o", "mo")}
+  d.update(layer="pwl", mo=[float(x) for x in mo], kernel=[[float(x) for x in r] for r in kernel], eps=eps, gclass=g,
+           inj=inj, forms=forms)
+  return d
+
+
+def pwl_family():
+  def b(kps, units, mono, omin, omax, cmin, cmax, o, cyclic=False, impute=False, miv=None, mov=None, mo=None,
+        split=False, learned=False):
+    return dict(kps=kps, units=units, mono=mono, omin=omin, omax=omax, cmin=cmin, cmax=cmax, cyclic=cyclic,
+                split=split, impute=impute, miv=miv, mov=mov, learned=learned, o=o, mo=mo or [0.0] * units)
+  return [
+      b([0.0, 1.0, 2.0], 2, 1, 0.0, 2.0, False, False, [[0.25, 0.5], [1.0, 1.0], [1.5, 1.75]]),
+      b([0.0, 1.0, 3.0], 2, -1, -1.0, 1.0, True, True, [[1.0, 1.0], [0.0, 0.5], [-1.0, -1.0]], split=True),
+      b([-1.0, 0.0, 1.0, 2.0], 1, 0, 0.0, None, True, False, [[1.0], [0.0], [2.0], [0.5]], impute=True, miv=-5.0,
+        mo=[1.0]),
+      b([0.0, 1.0, 2.0], 2, 0, -2.0, 2.0, False, False, [[0.0, 1.0], [1.0, -1.0]], cyclic=True, impute=True,
+        mo=[0.0, 1.0]),
+      b([0.0, 4.0], 3, 1, None, 1.0, False, True, [[-1.0, 0.0, 0.5], [1.0, 1.0, 1.0]], learned=True),
+  ]
+
+
 def gen_pwl(ctx, rng, out):
+  # every (kind, keypoint, unit) of a fixed family of small calibrators
+  enum = [(bi, b, inst) for bi, b in enumerate(pwl_family()) for inst in pwl_instances(b)]
+  ctx.c12_enum["pwl"] = len(enum)
+  chosen = enum if ctx.tier == "thorough" else rng.sample(enum, min(len(enum), 30))
+  ctx.c12_done["pwl"] = len(chosen)
+  for k, (bi, b, inst) in enumerate(chosen):
+    eps = EPS[(k + bi) % 4]
+    out.append(pwl_desc(b, eps, "enum", inst, [10.0, 30.0, 100.0][k % 3] * eps))
+  for bi, b in enumerate(pwl_family()):
+    out.append(pwl_desc(b, EPS[(bi + ctx.seed) % 4], "enumbase"))
   for _ in range(ctx.n(70, 1500)):
     n = rng.randint(2, 5)
     units = rng.choice([1, 1, 2, 3])
@@ -471,50 +634,17 @@ def gen_pwl(ctx, rng, out):
     mo = [min(max(tfimpl.dy(rng, -3, 3), lo), hi) for _ in range(units)]
     eps = rng.choice(EPS)
     g = rng.choice(["feasible", "inject", "inject", "inject", "below", "random"])
-    insts = []
-    for u in range(units):
-      if mono != 0:
-        insts += [("mono", k, u) for k in range(nk - 1)]
-      if omin is not None:
-        insts += [("clamp_min", 0, u)] if cmin else [("lower", k, u) for k in range(nk)]
-      if omax is not None:
-        insts += [("clamp_max", 0, u)] if cmax else [("upper", k, u) for k in range(nk)]
-      if impute and mov is None and omin is not None:
-        insts.append(("missing_lower", 0, u))
-      if impute and mov is None and omax is not None:
-        insts.append(("missing_upper", 0, u))
-    inj = None
-    if g in ("inject", "below") and not insts:
-      g = "feasible"
     if g == "random":
       o = np.array([[tfimpl.dy(rng, -4, 4) for _ in range(units)] for _ in range(nk)])
       mo = [tfimpl.dy(rng, -4, 4) for _ in range(units)]
-    elif g in ("inject", "below"):
-      kind, k, u = rng.choice(insts)
+    b = dict(kps=kps, units=units, mono=mono, omin=omin, omax=omax, cmin=cmin, cmax=cmax, cyclic=cyclic, split=split,
+             impute=impute, miv=miv, mov=mov, learned=learned, o=[[float(x) for x in r] for r in o], mo=mo)
+    insts = pwl_instances(b)
+    if g in ("inject", "below") and insts:
       delta = (rng.choice([10.0, 25.0, 100.0]) if g == "inject" else rng.choice([0.05, 0.3])) * eps
-      inj = dict(kind=kind, loc=[k], unit=u, delta=delta)
-      if kind == "mono":
-        s = (o[k + 1, u] - o[k, u]) * mono
-        t = (s + delta) / 2.0
-        o[k + 1, u] -= t * mono
-        o[k, u] += t * mono
-      elif kind == "lower":
-        o[k, u] = omin - delta
-      elif kind == "upper":
-        o[k, u] = omax + delta
-      elif kind == "clamp_min":
-        o[:, u] += delta * rng.choice([1.0, -1.0])
-      elif kind == "clamp_max":
-        o[:, u] += delta * rng.choice([1.0, -1.0])
-      elif kind == "missing_lower":
-        mo[u] = omin - delta
-      elif kind == "missing_upper":
-        mo[u] = omax + delta
-    kernel = np.concatenate([o[0:1], np.diff(o, axis=0)], axis=0)
-    out.append(dict(layer="pwl", kps=kps, units=units, mono=mono, omin=omin, omax=omax, cmin=cmin, cmax=cmax,
-                    cyclic=cyclic, split=split, impute=impute, miv=miv, mov=mov, mo=[float(x) for x in mo],
-                    learned=learned, kernel=[[float(x) for x in r] for r in kernel], eps=eps, gclass=g, inj=inj,
-                    forms=rng.randrange(2)))
+      out.append(pwl_desc(b, eps, g, rng.choice(insts), delta, rng.randrange(2)))
+    else:
+      out.append(pwl_desc(b, eps, g if g == "random" else "feasible", None, 0.0, rng.randrange(2)))
   # regression witnesses of the fixed defects B-E (must behave; a revert makes them crash or miss)
   out.append(dict(layer="pwl", kps=[0.0, 1.0, 2.0], units=2, mono=1, omin=None, omax=None, cmin=False, cmax=False,
                   cyclic=False, split=True, impute=False, miv=None, mov=None, mo=[0.0, 0.0], learned=False,
@@ -630,11 +760,76 @@ def lin_viol(d):
   return v
 
 
+def lin_instances(b):
+  K = np.array(b["K"], dtype=np.float64)
+  insts = []
+  for u in range(b["units"]):
+    insts += [("mono", i, u) for i in range(b["n"]) if b["monos"][i] != 0]
+    insts += [("mdom", k, u) for k in range(len(b["mdom"]))]
+    insts += [("rdom", k, u) for k in range(len(b["rdom"]))]
+    if b["norm"] and lin_norms(K, b["norm"])[u] > 0.5:
+      insts += [("norm+", 0, u), ("norm-", 0, u)]
+  return insts
+
+
+def lin_desc(b, eps, g, inst=None, delta=0.0, forms=0):
+  K = np.array(b["K"], dtype=np.float64)
+  inj = None
+  if inst is not None:
+    kind, k, u = inst
+    inj = dict(kind=kind, loc=[k], unit=u, delta=delta)
+    sc = lin_scalings(b)
+    if kind == "mono":
+      K[k, u] = -delta * b["monos"][k]
+    elif kind == "mdom":
+      p, q = b["mdom"][k]
+      t = (K[p, u] - K[q, u] + delta) / 2.0
+      K[p, u] -= t
+      K[q, u] += t
+    elif kind == "rdom":
+      p, q = b["rdom"][k]
+      t = (sc[p] * K[p, u] - sc[q] * K[q, u] + delta) / (sc[p] ** 2 + sc[q] ** 2)
+      K[p, u] -= t * sc[p]
+      K[q, u] += t * sc[q]
+    elif kind == "norm+" or (kind == "norm-" and delta >= 1.0):
+      K[:, u] *= 1.0 + delta
+    elif kind == "norm-":
+      K[:, u] *= 1.0 - delta
+  d = dict(b)
+  d.update(layer="linear", K=[[float(x) for x in r] for r in K], eps=eps, gclass=g, inj=inj, forms=forms)
+  return d
+
+
+def lin_family():
+  def b(monos, K, mdom=(), rdom=(), lo=None, hi=None, norm=None):
+    n = len(monos)
+    return dict(n=n, units=len(K[0]), monos=list(monos), mdom=[list(p) for p in mdom], rdom=[list(p) for p in rdom],
+                lo=lo or [None] * n, hi=hi or [None] * n, norm=norm, K=K)
+  return [
+      b([1, -1, 0], [[1.0, 0.5], [-0.5, -2.0], [-1.0, 3.0]]),
+      b([1, 1, 1], [[2.0, 1.0], [1.0, 0.5], [0.5, 3.0]], mdom=[(0, 1)]),
+      b([-1, -1, 0], [[-0.5], [-0.25], [0.25]], rdom=[(0, 1)], lo=[0.0, -1.0, None], hi=[2.0, 1.0, None], norm=1),
+      b([1, 1], [[0.6, 0.0, 0.28], [0.8, 1.0, 0.96]], rdom=[(1, 0)], lo=[0.0, 0.0], hi=[1.0, 4.0], norm=2),
+  ]
+
+
 def gen_linear(ctx, rng, out):
+  enum = [(bi, b, inst) for bi, b in enumerate(lin_family()) for inst in lin_instances(b)]
+  ctx.c12_enum["linear"] = len(enum)
+  chosen = enum if ctx.tier == "thorough" else rng.sample(enum, min(len(enum), 20))
+  ctx.c12_done["linear"] = len(chosen)
+  for k, (bi, b, inst) in enumerate(chosen):
+    eps = EPS[(k + bi) % 4]
+    out.append(lin_desc(b, eps, "enum", inst, [10.0, 30.0, 100.0][k % 3] * eps))
+  for bi, b in enumerate(lin_family()):
+    out.append(lin_desc(b, EPS[(bi + ctx.seed) % 4], "enumbase"))
   for _ in range(ctx.n(70, 1500)):
     n = rng.randint(1, 5)
     units = rng.choice([1, 1, 2, 3])
     monos = [rng.choice([-1, 0, 1, 1]) for _ in range(n)]
+    if n >= 2 and rng.random() < 0.3:   # a same-direction pair, decreasing half of the time
+      a, b_ = rng.sample(range(n), 2)
+      monos[a] = monos[b_] = rng.choice([-1, -1, 1])
     lo = [None] * n
     hi = [None] * n
     mdom, rdom = [], []
@@ -642,10 +837,9 @@ def gen_linear(ctx, rng, out):
     if len(inc) >= 2 and rng.random() < 0.5:
       mdom.append(rng.sample(inc, 2))
     same = [i for i in range(n) if monos[i] != 0 and not any(i in p for p in mdom)]
-    if len(same) >= 2 and rng.random() < 0.5:
-      a, b = rng.sample(same, 2)
-      if monos[a] == monos[b]:
-        rdom.append([a, b])
+    cand = [(a, b_) for a in same for b_ in same if a != b_ and monos[a] == monos[b_]]
+    if cand and rng.random() < 0.6:
+      rdom.append(list(rng.choice(cand)))
     for i in range(n):
       if any(i in p for p in rdom) or rng.random() < 0.3:
         lo[i] = tfimpl.dy(rng, -2, 2)
@@ -681,40 +875,21 @@ def gen_linear(ctx, rng, out):
       else:
         K = K * 0.0   # all-zero columns pass the norm check
     g = rng.choice(["feasible", "inject", "inject", "inject", "below", "random"])
-    insts = []
-    for u in range(units):
-      insts += [("mono", i, u) for i in range(n) if monos[i] != 0]
-      insts += [("mdom", k, u) for k in range(len(mdom))]
-      insts += [("rdom", k, u) for k in range(len(rdom))]
-      if norm and lin_norms(K, norm)[u] > 0.5:
-        insts.append(("norm", 0, u))
-    inj = None
-    if g in ("inject", "below") and not insts:
-      g = "feasible"
     if g == "random":
       K = np.array([[tfimpl.dy(rng, -2, 2) for _ in range(units)] for _ in range(n)])
-    elif g != "feasible":
-      kind, k, u = rng.choice(insts)
+    b = dict(n=n, units=units, monos=monos, mdom=mdom, rdom=rdom, lo=lo, hi=hi, norm=norm,
+             K=[[float(x) for x in r] for r in K])
+    insts = lin_instances(b)
+    if g in ("inject", "below") and insts:
       delta = (rng.choice([10.0, 25.0, 100.0]) if g == "inject" else rng.choice([0.05, 0.3])) * eps
-      inj = dict(kind=kind, loc=[k], unit=u, delta=delta)
-      if kind == "mono":
-        K[k, u] = -delta * monos[k]
-      elif kind == "mdom":
-        p, q = mdom[k]
-        t = (K[p, u] - K[q, u] + delta) / 2.0
-        K[p, u] -= t
-        K[q, u] += t
-      elif kind == "rdom":
-        p, q = rdom[k]
-        s = sc[p] * K[p, u] - sc[q] * K[q, u]
-        t = (s + delta) / (sc[p] ** 2 + sc[q] ** 2)
-        K[p, u] -= t * sc[p]
-        K[q, u] += t * sc[q]
-      elif kind == "norm":
-        f = 1.0 + delta if (delta >= 1.0 or rng.random() < 0.5) else 1.0 - delta
-        K[:, u] *= f
-    out.append(dict(layer="linear", n=n, units=units, monos=monos, mdom=mdom, rdom=rdom, lo=lo, hi=hi, norm=norm,
-                    K=[[float(x) for x in r] for r in K], eps=eps, gclass=g, inj=inj, forms=rng.randrange(2)))
+      out.append(lin_desc(b, eps, g, rng.choice(insts), delta, rng.randrange(2)))
+    else:
+      out.append(lin_desc(b, eps, g if g == "random" else "feasible", None, 0.0, rng.randrange(2)))
+  # all-zero columns cannot be normalised and pass the norm check (documented special case)
+  for order in (1, 2):
+    out.append(dict(layer="linear", n=2, units=2, monos=[1, 0], mdom=[], rdom=[], lo=[None, None], hi=[None, None],
+                    norm=order, K=[[0.0, 0.5], [0.0, 0.5]] if order == 1 else [[0.0, 0.6], [0.0, -0.8]], eps=1e-4,
+                    gclass="zeronorm", inj=None, forms=0))
   # regression witness of the fixed defect A (units > 1 with a norm)
   out.append(dict(layer="linear", n=2, units=2, monos=[1, 1], mdom=[], rdom=[], lo=[None, None], hi=[None, None],
                   norm=1, K=[[0.5, 0.5], [0.5, 0.5]], eps=1e-4, gclass="witnessA", inj=None, forms=0))
@@ -770,7 +945,57 @@ def cat_viol(d):
   return v
 
 
+def cat_instances(b):
+  insts = []
+  for u in range(b["units"]):
+    insts += [("pair", k, u) for k in range(len(b["pairs"]))]
+    if b["omin"] is not None:
+      insts += [("lower", k, u) for k in range(b["nb"])]
+    if b["omax"] is not None:
+      insts += [("upper", k, u) for k in range(b["nb"])]
+  return insts
+
+
+def cat_desc(b, eps, g, inst=None, delta=0.0):
+  K = np.array(b["K"], dtype=np.float64)
+  inj = None
+  if inst is not None:
+    kind, k, u = inst
+    inj = dict(kind=kind, loc=[k], unit=u, delta=delta)
+    if kind == "pair":
+      i, j = b["pairs"][k]
+      t = (K[j, u] - K[i, u] + delta) / 2.0
+      K[i, u] += t
+      K[j, u] -= t
+    elif kind == "lower":
+      K[k, u] = b["omin"] - delta
+    else:
+      K[k, u] = b["omax"] + delta
+  d = dict(b)
+  d.update(layer="categorical", K=[[float(x) for x in r] for r in K], eps=eps, gclass=g, inj=inj)
+  return d
+
+
+def cat_family():
+  def b(K, pairs, omin, omax, default=None):
+    return dict(nb=len(K), units=len(K[0]), pairs=[list(p) for p in pairs], omin=omin, omax=omax, K=K, default=default)
+  return [
+      b([[0.0, 0.5], [1.0, 0.5], [2.0, 1.5]], [(0, 1), (1, 2)], 0.0, 2.0),
+      b([[1.0], [3.0], [2.0], [0.0]], [(3, 0), (0, 2), (3, 2), (2, 1)], 0.0, None, default=-1),
+      b([[0.5, 1.0, -1.0], [0.0, 1.0, -2.0]], [(1, 0)], None, 1.0),
+  ]
+
+
 def gen_categorical(ctx, rng, out):
+  enum = [(bi, b, inst) for bi, b in enumerate(cat_family()) for inst in cat_instances(b)]
+  ctx.c12_enum["categorical"] = len(enum)
+  chosen = enum if ctx.tier == "thorough" else rng.sample(enum, min(len(enum), 20))
+  ctx.c12_done["categorical"] = len(chosen)
+  for k, (bi, b, inst) in enumerate(chosen):
+    eps = EPS[(k + bi) % 4]
+    out.append(cat_desc(b, eps, "enum", inst, [10.0, 30.0, 100.0][k % 3] * eps))
+  for bi, b in enumerate(cat_family()):
+    out.append(cat_desc(b, EPS[(bi + ctx.seed) % 4], "enumbase"))
   for _ in range(ctx.n(60, 1200)):
     nb = rng.randint(2, 5)
     units = rng.choice([1, 1, 2, 3])
@@ -783,37 +1008,19 @@ def gen_categorical(ctx, rng, out):
     omin = a if bmode in ("min", "both") else None
     omax = a + 4.0 if bmode in ("max", "both") else None
     lo = omin if omin is not None else (omax - 4.0 if omax is not None else -2.0)
-    K = np.array([[lo + rank[b] * rng.choice([0.0, 0.5, 1.0]) for _ in range(units)] for b in range(nb)])
+    K = np.array([[lo + rank[b_] * rng.choice([0.0, 0.5, 1.0]) for _ in range(units)] for b_ in range(nb)])
     eps = rng.choice(EPS)
     g = rng.choice(["feasible", "inject", "inject", "inject", "below", "random"])
-    insts = []
-    for u in range(units):
-      insts += [("pair", k, u) for k in range(len(pairs))]
-      if omin is not None:
-        insts += [("lower", b, u) for b in range(nb)]
-      if omax is not None:
-        insts += [("upper", b, u) for b in range(nb)]
-    inj = None
-    if g in ("inject", "below") and not insts:
-      g = "feasible"
     if g == "random":
       K = np.array([[tfimpl.dy(rng, -3, 3) for _ in range(units)] for _ in range(nb)])
-    elif g != "feasible":
-      kind, k, u = rng.choice(insts)
+    b = dict(nb=nb, units=units, pairs=pairs, omin=omin, omax=omax, K=[[float(x) for x in r] for r in K],
+             default=rng.choice([None, None, -1]))
+    insts = cat_instances(b)
+    if g in ("inject", "below") and insts:
       delta = (rng.choice([10.0, 25.0, 100.0]) if g == "inject" else rng.choice([0.05, 0.3])) * eps
-      inj = dict(kind=kind, loc=[k], unit=u, delta=delta)
-      if kind == "pair":
-        i, j = pairs[k]
-        t = (K[j, u] - K[i, u] + delta) / 2.0
-        K[i, u] += t
-        K[j, u] -= t
-      elif kind == "lower":
-        K[k, u] = omin - delta
-      else:
-        K[k, u] = omax + delta
-    out.append(dict(layer="categorical", nb=nb, units=units, pairs=pairs, omin=omin, omax=omax,
-                    K=[[float(x) for x in r] for r in K], eps=eps, gclass=g, inj=inj,
-                    default=rng.choice([None, None, -1])))
+      out.append(cat_desc(b, eps, g, rng.choice(insts), delta))
+    else:
+      out.append(cat_desc(b, eps, g if g == "random" else "feasible"))
   # witness of the fixed defect D9: pair (0,1) in order, pair (1,2) violated
   out.append(dict(layer="categorical", nb=3, units=1, pairs=[[0, 1], [1, 2]], omin=None, omax=None,
                   K=[[0.0], [2.0], [1.0]], eps=1e-6, gclass="witnessD9", inj=dict(kind="pair", loc=[1], unit=0, delta=1.0),
@@ -865,7 +1072,86 @@ def kfl_viols(d):
   return ve, vs
 
 
+def kfl_bmode(b):
+  return ("both" if b["omin"] is not None and b["omax"] is not None else "min" if b["omin"] is not None else
+          "max" if b["omax"] is not None else "none")
+
+
+def kfl_instances(b):
+  L, units, dims, terms = b["L"], b["units"], b["dims"], b["terms"]
+  K = np.array(b["kernel"], dtype=np.float64).reshape(L, units, dims, terms)
+  S = np.array(b["scale"], dtype=np.float64)
+  bm = kfl_bmode(b)
+  insts = []
+  for u in range(units):
+    for t in range(terms):
+      if b["monos"]:
+        insts += [("mono", k, dd, u, t) for dd in range(dims) if b["monos"][dd] and S[u, t] != 0 for k in range(L - 1)]
+      if bm == "both":
+        if np.abs(K[:, u, :, t]).max(axis=0).prod() > 0:
+          insts += [("product", 0, dd, u, t) for dd in range(dims)]
+        insts += [("scale+", 0, 0, u, t), ("scale-", 0, 0, u, t)]
+      elif bm in ("min", "max"):
+        insts += [("negative", k, dd, u, t) for k in range(L) for dd in range(dims)]
+        insts.append(("scale", 0, 0, u, t))
+  return insts
+
+
+def kfl_desc(b, eps, g, inst=None, delta=0.0, forms=0):
+  L, units, dims, terms = b["L"], b["units"], b["dims"], b["terms"]
+  K = np.array(b["kernel"], dtype=np.float64).reshape(L, units, dims, terms)
+  S = np.array(b["scale"], dtype=np.float64)
+  bm = kfl_bmode(b)
+  inj = None
+  if inst is not None:
+    kind, k, dd, u, t = inst
+    inj = dict(kind=kind, loc=[k, dd, t], unit=u, delta=delta)
+    if kind == "mono":
+      sg = np.sign(S[u, t])
+      tt = (sg * (K[k + 1, u, dd, t] - K[k, u, dd, t]) + delta) / 2.0
+      K[k + 1, u, dd, t] -= sg * tt
+      K[k, u, dd, t] += sg * tt
+    elif kind == "product":
+      K[:, u, dd, t] *= (1.0 + delta) / np.abs(K[:, u, :, t]).max(axis=0).prod()
+    elif kind == "negative":
+      K[k, u, dd, t] = -delta
+    elif kind in ("scale+", "scale-"):
+      S[u, t] = ((b["omax"] - b["omin"]) / 2.0 + delta) * (1.0 if kind == "scale+" else -1.0)
+    elif kind == "scale":
+      S[u, t] = -delta if bm == "min" else delta
+  d = dict(b)
+  d.update(layer="kfl", scale=[[float(x) for x in r] for r in S], kernel=[float(x) for x in K.ravel()], eps=eps,
+           gclass=g, inj=inj, forms=forms)
+  return d
+
+
+def kfl_family():
+  def b(L, units, dims, terms, monos, omin, omax, scale, kernel):
+    assert len(kernel) == L * units * dims * terms
+    return dict(L=L, units=units, dims=dims, terms=terms, monos=monos, omin=omin, omax=omax, scale=scale, kernel=kernel)
+  return [
+      # [k][u][d][t]
+      b(3, 1, 2, 2, [1, 0], 0.0, 2.0, [[1.0, -1.0]],
+        [0.0, 1.0, 0.5, -0.5,   0.5, 0.5, -1.0, 0.25,   1.0, 0.0, 0.25, 1.0]),
+      b(2, 2, 2, 1, [1, 1], 0.0, None, [[1.0], [0.5]],
+        [0.0, 0.25, 0.5, 0.0,   1.0, 0.5, 2.0, 3.0]),
+      b(2, 1, 1, 2, None, None, 1.0, [[-1.0, -0.5]], [0.5, 0.0, 1.0, 2.0]),
+      b(3, 2, 2, 2, [0, 1], None, None, [[1.0, -2.0], [-1.0, 0.5]],
+        [0.0, 1.0, -1.0, 2.0, 3.0, -3.0, 2.0, 0.0,   -2.0, 0.5, 0.0, 1.0, 1.0, 1.0, 1.0, 1.0,
+         5.0, -5.0, 0.5, 0.0, -1.0, 4.0, 0.0, 2.0]),
+  ]
+
+
 def gen_kfl(ctx, rng, out):
+  enum = [(bi, b, inst) for bi, b in enumerate(kfl_family()) for inst in kfl_instances(b)]
+  ctx.c12_enum["kfl"] = len(enum)
+  chosen = enum if ctx.tier == "thorough" else rng.sample(enum, min(len(enum), 25))
+  ctx.c12_done["kfl"] = len(chosen)
+  for k, (bi, b, inst) in enumerate(chosen):
+    eps = EPS[(k + bi) % 4]
+    out.append(kfl_desc(b, eps, "enum", inst, [10.0, 30.0, 100.0][k % 3] * eps))
+  for bi, b in enumerate(kfl_family()):
+    out.append(kfl_desc(b, EPS[(bi + ctx.seed) % 4], "enumbase"))
   for _ in range(ctx.n(60, 1200)):
     L = rng.choice([2, 2, 3])
     dims = rng.randint(1, 3)
@@ -895,47 +1181,17 @@ def gen_kfl(ctx, rng, out):
           K[:, u, dd, t] = vals
     eps = rng.choice(EPS)
     g = rng.choice(["feasible", "inject", "inject", "inject", "below", "random"])
-    insts = []
-    for u in range(units):
-      for t in range(terms):
-        if monos:
-          insts += [("mono", (k, dd), u, t) for dd in range(dims) if monos[dd] and S[u, t] != 0 for k in range(L - 1)]
-        if bmode == "both":
-          if np.abs(K[:, u, :, t]).max(axis=0).prod() > 0:
-            insts.append(("product", (rng.randrange(dims), 0), u, t))
-          insts.append(("scale", (0, 0), u, t))
-        elif bmode in ("min", "max"):
-          insts += [("negative", (k, dd), u, t) for k in range(L) for dd in range(dims)]
-          insts.append(("scale", (0, 0), u, t))
-    inj = None
-    if g in ("inject", "below") and not insts:
-      g = "feasible"
     if g == "random":
       K = np.array([tfimpl.dy(rng, -1.5, 1.5) for _ in range(K.size)]).reshape(K.shape)
       S = np.array([[tfimpl.dy(rng, -2, 2) for _ in range(terms)] for _ in range(units)])
-    elif g != "feasible":
-      kind, (k, dd), u, t = rng.choice(insts)
+    b = dict(L=L, dims=dims, units=units, terms=terms, monos=monos, omin=omin, omax=omax,
+             scale=[[float(x) for x in r] for r in S], kernel=[float(x) for x in K.ravel()])
+    insts = kfl_instances(b)
+    if g in ("inject", "below") and insts:
       delta = (rng.choice([10.0, 25.0, 100.0]) if g == "inject" else rng.choice([0.05, 0.3])) * eps
-      inj = dict(kind=kind, loc=[k, dd, t], unit=u, delta=delta)
-      if kind == "mono":
-        sg = np.sign(S[u, t])
-        s = sg * (K[k + 1, u, dd, t] - K[k, u, dd, t])
-        tt = (s + delta) / 2.0
-        K[k + 1, u, dd, t] -= sg * tt
-        K[k, u, dd, t] += sg * tt
-      elif kind == "product":
-        p = np.abs(K[:, u, :, t]).max(axis=0).prod()
-        K[:, u, k, t] *= (1.0 + delta) / p
-      elif kind == "negative":
-        K[k, u, dd, t] = -delta
-      elif kind == "scale":
-        if bmode == "both":
-          S[u, t] = (bound + delta) * rng.choice([1.0, -1.0])
-        else:
-          S[u, t] = -delta if bmode == "min" else delta
-    out.append(dict(layer="kfl", L=L, dims=dims, units=units, terms=terms, monos=monos, omin=omin, omax=omax,
-                    scale=[[float(x) for x in r] for r in S], kernel=[float(x) for x in K.ravel()], eps=eps, gclass=g,
-                    inj=inj, forms=rng.randrange(2)))
+      out.append(kfl_desc(b, eps, g, rng.choice(insts), delta, rng.randrange(2)))
+    else:
+      out.append(kfl_desc(b, eps, g if g == "random" else "feasible", None, 0.0, rng.randrange(2)))
 
 
 def eval_kfl(tf, tfl, d):
@@ -974,8 +1230,9 @@ def gen_rtl(ctx, rng, out):
     n_inc, n_unc = rng.randint(1, 3), rng.randint(0, 3)
     if n_inc + n_unc < rank:
       n_unc = rank - n_inc
+    num_lattices = max(rng.randint(2, 4), -(-(n_inc + n_unc) // rank))   # every input must fit
     out.append(dict(layer="rtl", rank=rank, size=rng.choice([2, 2, 3]), n_inc=n_inc, n_unc=n_unc,
-                    num_lattices=rng.randint(2, 4), bmode=rng.choice(["none", "both", "min"]),
+                    num_lattices=num_lattices, bmode=rng.choice(["none", "both", "min"]),
                     kseed=rng.randrange(10 ** 6), eps=rng.choice(EPS),
                     gclass=rng.choice(["feasible", "inject", "inject", "inject", "below"]),
                     pick=[rng.random(), rng.random(), rng.random()], mult=rng.choice([10.0, 25.0, 100.0]),
@@ -1007,11 +1264,11 @@ def eval_rtl(tf, tfl, d):
     li = int(d["pick"][0] * len(subs))
     ineqs = lat_ineqs(cfgs[li])
     if ineqs:
-      kind, loc, rows, const = ineqs[int(d["pick"][1] * len(ineqs))]
+      qi = int(d["pick"][1] * len(ineqs))
       u = int(d["pick"][2] * cfgs[li]["units"])
       delta = (d["mult"] if d["gclass"] == "inject" else 0.2) * eps
-      Ws[li] = inject(Ws[li], u, rows, const, delta)
-      inj = dict(layer=li, kind=kind, loc=loc, unit=u, delta=delta)
+      Ws[li], single = inject_single(Ws[li], u, ineqs, qi, delta)
+      inj = dict(layer=li, kind=ineqs[qi][0], loc=ineqs[qi][1], unit=u, delta=delta, single=single)
   for sub, W in zip(subs, Ws):
     sub.kernel.assign(W)
   out = outcome_of(tf, lambda: layer.assert_constraints(eps))
@@ -1030,6 +1287,7 @@ def eval_rtl(tf, tfl, d):
 def gen_descs(ctx):
   out = []
   rng = ctx.rng
+  ctx.c12_enum, ctx.c12_done = {}, {}
   gen_lattice(ctx, rng, out)
   gen_pwl(ctx, rng, out)
   gen_linear(ctx, rng, out)
@@ -1052,11 +1310,14 @@ def eval_cases(ctx, descs):
 
 
 def extra(ctx, stats):
-  total = getattr(ctx, "c12_enum_total", 0)
-  done = getattr(ctx, "c12_enum_done", 0)
-  stats["single_violation_placements_in_family"] = total
-  stats["single_violation_placements_run"] = done
-  stats["exhaustive_domain"] = ("every (covered inequality instance, unit) of the 15 fixed small Lattice configurations "
-                                "of small_family(), one injected violation each")
-  stats["exhaustive"] = bool(total and done == total)
+  total = getattr(ctx, "c12_enum", {})
+  done = getattr(ctx, "c12_done", {})
+  stats["single_violation_placements_in_families"] = dict(total)
+  stats["single_violation_placements_run"] = dict(done)
+  stats["exhaustive_domain"] = (
+      "every (covered inequality instance, unit) - each vertex pair / square / range quadruple / triangle / bound "
+      "vertex / keypoint / ordering pair / term - of the fixed small configurations small_family() (15 Lattice), "
+      "pwl_family() (5), lin_family() (4), cat_family() (3), kfl_family() (4), one injected violation each; the "
+      "Lattice placements violate ONLY the chosen inequality whenever the other covered inequalities do not imply it")
+  stats["exhaustive"] = bool(total and all(done.get(k) == v for k, v in total.items()))
   return []
